@@ -605,6 +605,13 @@ class CallMixin:
             node = ast.Call(func=ast.Name(id=f.value.id, ctx=ast.Load()), args=node.args, keywords=node.keywords)
             ast.copy_location(node, f)
             f = node.func
+        if isinstance(f, ast.Subscript) and isinstance(f.value, ast.Name) and f.value.id not in st.env and f.value.id not in self.freevars:
+            rg0 = self.world.resolve_global(self.module, f.value.id)
+            if rg0 is not None and rg0[0] == "ext":
+                # subscripted generic alias of an external callable (create_memory_object_stream[T](...)): the type argument has no run-time effect
+                node = ast.Call(func=f.value, args=node.args, keywords=node.keywords)
+                ast.copy_location(node, f)
+                f = node.func
         if isinstance(f, ast.Name) and f.id not in st.env and f.id not in self.freevars:
             h = getattr(self, "bi_" + f.id, None)
             rg = self.world.resolve_global(self.module, f.id)
@@ -669,12 +676,20 @@ class CallMixin:
                 env = SV(Val.recv(fv.t), ANY)
                 return self.call_spec(st, qual, pos, kw, self.anchor_for(node), awaited=awaited, env=env, packs=packs)
             fi = self.world.funcs.get(qual)
+            if fi is not None and fi.is_async and any(isinstance(n, (ast.Yield, ast.YieldFrom)) for n in self.world._own_nodes(fi.node)):
+                # calling an async generator function creates the generator object; no part of its body runs (language semantics)
+                a = st.new_ref(owned=False)
+                st.set_fld("__class__", a, con("async_generator:" + qual))
+                st.trace.append(("new-generator", qual, a))
+                return [Res(st, SV(vref(a), ANY))]
             if fi is not None and not fi.is_async and self.inline_depth < 2:
                 return self.inline_closure(st, fi, pos, kw)
             return self.opaque_call(st, fv, pos + list(kw.values()), None, f"call({qual.split('.')[-1]})")
         if k == "bm":
             qual = fv.ty.name
             recv = SV(Val.recv(fv.t), self.reg.self_type(self.world, qual))
+            if qual in self.reg.specs and getattr(self.reg.specs[qual], "generator_cm", False):
+                return self.make_gcm(st, qual, [recv] + pos, kw)
             if qual in self.reg.specs:
                 return self.call_spec(st, qual, [recv] + pos, kw, self.anchor_for(node), awaited=awaited, packs=packs)
         if k == "ext":
@@ -698,6 +713,18 @@ class CallMixin:
         self.call_ord[label] = n + 1
         return f"{label}#{n}"
 
+    def make_gcm(self, st: State, qual: str, pos, kw) -> list[Res]:
+        """a @contextmanager function/method with a contract marked generator_cm: the call only creates the context manager (its body
+        runs inside `with` / enter_context)"""
+        bound = self.bind_params(self.world.funcs[qual], self.reg.specs[qual], pos, kw, st=st)
+        items = z3.K(I, VNone)
+        names = list(bound)
+        for i_, n_ in enumerate(names):
+            items = z3.Store(items, i_, bound[n_].t)
+        ta = st.new_tuple(items, z3.IntVal(len(names)))
+        st.trace.append(("new-cm", qual, dict(bound)))
+        return [Res(st, SV(vref(ta), Ty("gcm", (), qual), tuple(bound[n_] for n_ in names)))]
+
     def call_method(self, st: State, recv: SV, meth: str, pos, kw, packs, node, awaited=False) -> list[Res]:
         ty = strip_opt(recv.ty)
         k = ty.kind
@@ -713,6 +740,8 @@ class CallMixin:
                 return self.call_value(st, fv, pos, kw, packs, node, awaited)
             fi = self.world.find_method(ty.name, meth)
             if fi is not None:
+                if fi.qual in self.reg.specs and getattr(self.reg.specs[fi.qual], "generator_cm", False):
+                    return self.make_gcm(st, fi.qual, [recv] + pos, kw)
                 if fi.qual in self.reg.specs:
                     first = [] if "staticmethod" in fi.decorators else [recv]
                     return self.call_spec(st, fi.qual, first + pos, kw, self.anchor_for(node), awaited=awaited, packs=packs)
@@ -806,6 +835,18 @@ class CallMixin:
             args = self.bind_params(fi, spec, pos, kw, st=st)
         else:
             args = spec.bind(pos, kw)
+        for n, v in list(args.items()):
+            pty = spec.param_types.get(n)
+            if pty is not None and strip_opt(pty).kind == "tuple" and strip_opt(v.ty).kind == "list" and getattr(spec, "sequence_params", False):
+                # a read-only Sequence parameter verified for tuples: a list argument is seen as the tuple of its current items
+                # (the contract declares that the callee only iterates it, in one atomic segment)
+                a_ = Val.a(v.t)
+                items_, ln_ = z3.Select(st.heap["l_item"], a_), st.l_len(a_)
+                ta_ = st.new_tuple(items_, ln_)
+                from .comps import is_seq as _is_seq
+                st.assume(ln_ >= 0, _is_seq(items_, ln_))
+                args[n] = SV(vref(ta_), strip_opt(pty), (items_, ln_))
+                st.uses.add("A-SEQ")
         if env is not None:
             args["__env__"] = env
         for n, v in args.items():
